@@ -299,6 +299,7 @@ class _Site(object):
 
     def __init__(self, fi, where, kname, vname, kind='items'):
         self.fi, self.where, self.kname, self.vname, self.kind = fi, where, kname, vname, kind
+        self.binder = None      # the For / comprehension generator / unpacking assignment that binds key and value
         self.uses, self.bad, self.rebinds, self.markers = [], [], [], []
         self.shown = False
         self._seen = set()
@@ -401,6 +402,11 @@ class _Taint(object):
             return 0
         if isinstance(t, ast.UnaryOp) and isinstance(t.op, ast.Not):
             return -self.secret_test(fi, t.operand, kname, depth)
+        if isinstance(t, ast.Name) and isinstance(t.ctx, ast.Load):
+            # a local that names the test (``is_secret = 'secret' in key`` ... ``x if is_secret else y``): it is assigned
+            # once, earlier in the same loop body, from the key the loop holds (the key itself is never re-bound: R18.a)
+            v = self._named_test(fi, t)
+            return self.secret_test(fi, v, kname, depth + 1) if v is not None else 0
         if isinstance(t, ast.Compare) and len(t.ops) == 1 and isinstance(t.ops[0], (ast.In, ast.NotIn)):
             if _fold_str(self.repo, fi, t.left) == FRAGMENT and self._is_key_expr(fi, t.comparators[0], kname):
                 return 1 if isinstance(t.ops[0], ast.In) else -1
@@ -415,6 +421,32 @@ class _Taint(object):
                     if len(kps) == 1:
                         return self.secret_test(callee, expr, kps[0], depth + 1)
         return 0
+
+    def _named_test(self, fi, use):
+        stores = [n for n in ast.walk(fi.node) if isinstance(n, ast.Name) and n.id == use.id and isinstance(n.ctx, (ast.Store, ast.Del))]
+        if len(stores) != 1 or use.id in fi.params():
+            return None
+        asg = fi.mod.parents.get(stores[0])
+        if not (isinstance(asg, ast.Assign) and len(asg.targets) == 1 and asg.targets[0] is stores[0]):
+            return None
+        ust = stmt_of(fi.mod, use)
+        if ust is None or getattr(asg, 'lineno', 0) >= getattr(ust, 'lineno', 0):
+            return None
+
+        def loops(st):
+            out, cur = [], st
+            while cur is not None and cur is not fi.node:
+                cur = fi.mod.parents.get(cur)
+                if isinstance(cur, (ast.For, ast.While)):
+                    out.append(id(cur))
+            return out
+        # same iteration: assignment and use sit in the same loop(s); the assignment is not in a conditional branch
+        if loops(asg) != loops(ust):
+            return None
+        par = fi.mod.parents.get(asg)
+        if not (isinstance(par, (ast.For, ast.While)) or par is fi.node):
+            return None
+        return asg.value
 
     def polarity(self, fi, node, kname):
         """+1: 'secret' is known to be in the name where ``node`` is evaluated; -1: known not to be; 0: unknown."""
@@ -479,6 +511,7 @@ class _Taint(object):
                             site = self._site_of.get(id(b))
                             if site is None:
                                 site = self._site_of[id(b)] = _Site(fi, src, k, v, want)
+                                site.binder = b
                                 self.sites.append(site)
                             sites[id(b)] = site
                         vt = ('val', k, site)
@@ -512,9 +545,24 @@ class _Taint(object):
                         keyed.setdefault((t[1], id(t[2])), t[2])
         for (k, _), site in keyed.items():
             stores = [n for n in nodes if isinstance(n, ast.Name) and n.id == k and isinstance(n.ctx, (ast.Store, ast.Del))]
-            if site.kind == 'lookup' and site.fi is fi:
-                # the name the value is looked up by has one binding (a loop over the names, a parameter)
-                stores = stores[1:] if k not in fi.params() else stores
+            if site.fi is not fi or k in ptags:
+                pass                                    # the key arrived as a parameter: no store at all is expected
+            elif site.kind == 'items' and site.binder is not None:
+                region = set(id(x) for x in self._region(fi, site.binder))
+                stores = [n for n in stores if id(n) in region and id(n) not in site_targets]
+            elif site.kind == 'lookup':
+                bad = []
+                for n in nodes:
+                    if isinstance(n, ast.Subscript) and any(t[0] == 'val' and t[2] is site for t in self.tags(n, env)):
+                        b = self._binder_of(fi, n, k)
+                        if b is not None:
+                            region = set(id(x) for x in self._region(fi, b))
+                            tg = set(id(x) for x in ast.walk(b.target))
+                            bad.extend(x for x in stores if id(x) in region and id(x) not in tg)
+                        else:
+                            # a plain local / parameter: one binding (none for a parameter) in the whole function
+                            bad.extend(stores if k in fi.params() else stores[1:])
+                stores = list(dict((id(x), x) for x in bad).values())
             else:
                 stores = [n for n in stores if id(n) not in site_targets]
             for n in stores:
@@ -541,6 +589,21 @@ class _Taint(object):
         # follow tagged arguments into the helpers they are passed to
         for call, callee, ptags2 in pending.values():
             self.scan(callee, ptags2, chain + ((fi, call),))
+
+    def _region(self, fi, binder):
+        """The nodes that run with the binder's targets bound: the loop body, or the comprehension around the generator."""
+        if isinstance(binder, ast.For):
+            return [x for st in binder.body for x in ast.walk(st)]
+        if isinstance(binder, ast.comprehension):
+            return list(ast.walk(fi.mod.parents.get(binder)))
+        return list(_walk(fi))
+
+    def _binder_of(self, fi, node, name):
+        """Innermost loop / comprehension generator around ``node`` that binds ``name``."""
+        for l in _loops_around(fi, node):
+            if any(isinstance(x, ast.Name) and x.id == name for x in ast.walk(l.target)):
+                return l
+        return None
 
     def _transfer(self, fi, node, tag, pending):
         """``node`` is passed to a helper of the analysed tree: remember the parameter's tag.  False when it is not
@@ -916,48 +979,129 @@ def _mw_reads(repo, fi, scope_nodes, mv, attrs, depth=0):
                     _mw_reads(repo, callee, list(walk_body(callee.node)), p, attrs, depth + 1)
 
 
+def _single_assignment(fi, name):
+    """The value of local ``name`` when it is assigned exactly once in the function (and is not a parameter)."""
+    if name in fi.params():
+        return None
+    srcs = [s.value for s in stmts_of(fi.node) if isinstance(s, ast.Assign) and len(s.targets) == 1 and
+            isinstance(s.targets[0], ast.Name) and s.targets[0].id == name]
+    stores = [n for n in ast.walk(fi.node) if isinstance(n, ast.Name) and n.id == name and isinstance(n.ctx, (ast.Store, ast.Del))]
+    return srcs[0] if len(srcs) == 1 and len(stores) == 1 else None
+
+
+def _mw_scopes(repo, fi, coll_names, depth=0):
+    """[(function, nodes, local)]: the places where one middleware of the application's list is held by ``local`` --
+    the body of a loop / the element of a comprehension over the list, the function mapped over it, followed into the
+    helpers of the tree the list is handed to."""
+    def unwrap(e):
+        while True:
+            if isinstance(e, ast.Call) and isinstance(e.func, ast.Name) and e.func.id in ('enumerate', 'list', 'tuple', 'reversed', 'sorted', 'iter') and e.args:
+                e = e.args[0]
+            elif isinstance(e, ast.Subscript) and isinstance(e.slice, ast.Slice):
+                e = e.value
+            else:
+                return e
+
+    def is_coll(e, d=0):
+        e = unwrap(e)
+        if isinstance(e, ast.Attribute) and e.attr == 'middlewares':
+            return True
+        if isinstance(e, ast.Name):
+            if e.id in coll_names:
+                return True
+            v = _single_assignment(fi, e.id) if d < 3 else None
+            return v is not None and is_coll(v, d + 1)
+        return False
+
+    def element_name(b):
+        if isinstance(b.target, ast.Name):
+            return b.target.id
+        if isinstance(b.target, (ast.Tuple, ast.List)) and len(b.target.elts) == 2 and isinstance(b.target.elts[1], ast.Name) and \
+                isinstance(b.iter, ast.Call) and call_name(b.iter) == 'enumerate':
+            return b.target.elts[1].id
+        return None
+    out = []
+    if depth > 3:
+        return out
+    mod = fi.mod
+    for n in walk_body(fi.node):
+        if isinstance(n, (ast.For, ast.comprehension)) and is_coll(n.iter):
+            mv = element_name(n)
+            if mv is None:
+                raise AnalysisError('%s: loop over the middlewares with an unrecognised target (%s)' % (fi.qualname, short(n.target, 40)))
+            if isinstance(n, ast.For):
+                scope = [x for s in n.body + n.orelse for x in ast.walk(s)]
+            else:
+                comp = mod.parents.get(n)
+                scope = [x for x in ast.walk(comp) if not any(x is y for y in ast.walk(n.iter))]
+            out.append((fi, scope, mv))
+        elif isinstance(n, ast.Call) and call_name(n) == 'map' and len(n.args) == 2 and not n.keywords and is_coll(n.args[1]):
+            f = n.args[0]
+            if isinstance(f, ast.Lambda) and len(f.args.args) == 1:
+                out.append((fi, list(ast.walk(f.body)), f.args.args[0].arg))
+                continue
+            if isinstance(f, ast.Name) and f.id in _local_names(fi):     # a local that names the function
+                v = _single_assignment(fi, f.id)
+                f = v if v is not None else f
+            callee, skip = resolve_callee(repo, fi, ast.Call(func=f, args=[], keywords=[]))
+            ps = callee.params()[skip:] if callee is not None else []
+            if not ps:
+                raise AnalysisError('%s: function mapped over the middlewares cannot be resolved (%s)' % (fi.qualname, short(f, 40)))
+            out.append((callee, list(walk_body(callee.node)), ps[0]))
+        elif isinstance(n, ast.Call):
+            callee, skip = resolve_callee(repo, fi, n)
+            if callee is None:
+                continue
+            b = bind_args(callee, skip, n)
+            for p, x in (b or {}).items():
+                if is_coll(x):
+                    out.extend(_mw_scopes(repo, callee, {p}, depth + 1))
+    return out
+
+
+def _self_reads(repo, fi, me, depth=0):
+    """(attribute names read from the object held by ``me``, reads whose name is not known statically) in ``fi`` and in
+    the methods / functions of the tree the object is handed to."""
+    attrs, wide = set(), []
+    for n in walk_body(fi.node):
+        if isinstance(n, ast.Attribute) and isinstance(n.value, ast.Name) and n.value.id == me:
+            if n.attr == '__dict__':
+                wide.append('__dict__')
+            else:
+                attrs.add(n.attr)
+        elif isinstance(n, ast.Call) and call_name(n) in ('vars', 'dir') and n.args and norm(n.args[0]) == me:
+            wide.append('%s()' % call_name(n))
+        elif isinstance(n, ast.Call) and call_name(n) in ('getattr', 'hasattr') and len(n.args) >= 2 and norm(n.args[0]) == me:
+            nm = repo.try_fold(n.args[1], fi.mod)
+            if isinstance(nm, str) and not (isinstance(n.args[1], ast.Name) and n.args[1].id in _local_names(fi)):
+                attrs.add(nm)
+            elif call_name(n) == 'getattr':
+                wide.append('getattr(%s, %s)' % (me, short(n.args[1], 30)))
+        if isinstance(n, ast.Call) and depth < 2:
+            callee, skip = resolve_callee(repo, fi, n)
+            if callee is None or callee.name in ('__repr__', '__str__', '__init__'):
+                continue
+            if skip == 1 and isinstance(n.func, ast.Attribute) and isinstance(n.func.value, ast.Name) and n.func.value.id == me:
+                a, w = _self_reads(repo, callee, (callee.params() or [me])[0], depth + 1)
+                attrs |= a
+                wide += w
+            b = bind_args(callee, skip, n) or {}
+            for p, x in b.items():
+                if isinstance(x, ast.Name) and x.id == me:
+                    a, w = _self_reads(repo, callee, p, depth + 1)
+                    attrs |= a
+                    wide += w
+    return attrs, wide
+
+
 def _r18b(rep, repo, meta):
     gm = meta.func('get_mw_infos')
-    binders = [n for n in walk_body(gm.node) if isinstance(n, (ast.For, ast.comprehension)) and isinstance(n.target, ast.Name) and
-               any(isinstance(x, ast.Attribute) and x.attr == 'middlewares' for x in ast.walk(n.iter))]
-    if not binders:
-        # the middleware list may be named first
-        for n in walk_body(gm.node):
-            if isinstance(n, (ast.For, ast.comprehension)) and isinstance(n.target, ast.Name) and isinstance(n.iter, ast.Name):
-                srcs = [s.value for s in stmts_of(gm.node) if isinstance(s, ast.Assign) and len(s.targets) == 1 and
-                        norm(s.targets[0]) == n.iter.id]
-                if len(srcs) == 1 and any(isinstance(x, ast.Attribute) and x.attr == 'middlewares' for x in ast.walk(srcs[0])):
-                    binders.append(n)
+    scopes = _mw_scopes(repo, gm, set())
+    if len(scopes) != 1:
+        raise AnalysisError('get_mw_infos: %d iterations over the middlewares found (one expected)' % len(scopes))
+    sf, scope, mv = scopes[0]
     attrs = set()
-    if len(binders) == 1:
-        b = binders[0]
-        mv = b.target.id
-        if isinstance(b, ast.For):
-            scope = [x for s in b.body + b.orelse for x in ast.walk(s)]
-        else:
-            comp = meta.parents.get(b)
-            scope = [x for x in ast.walk(comp) if not any(x is y for y in ast.walk(b.iter))]
-        _mw_reads(repo, gm, scope, mv, attrs)
-    elif not binders:
-        # map(<function>, <middlewares>): the function's first parameter is the middleware
-        found = 0
-        for n in walk_body(gm.node):
-            if isinstance(n, ast.Call) and call_name(n) == 'map' and len(n.args) == 2 and not n.keywords and \
-                    _iter_mentions(gm, n.args[1], 'middlewares'):
-                f = n.args[0]
-                if isinstance(f, ast.Lambda) and len(f.args.args) == 1:
-                    found += 1
-                    _mw_reads(repo, gm, list(ast.walk(f.body)), f.args.args[0].arg, attrs)
-                elif isinstance(f, ast.Name):
-                    callee, skip = resolve_callee(repo, gm, ast.Call(func=f, args=[], keywords=[]))
-                    ps = callee.params()[skip:] if callee is not None else []
-                    if ps:
-                        found += 1
-                        _mw_reads(repo, callee, list(walk_body(callee.node)), ps[0], attrs)
-        if found != 1:
-            raise AnalysisError('get_mw_infos: iteration over the middlewares not found')
-    else:
-        raise AnalysisError('get_mw_infos: %d iterations over the middlewares (one expected)' % len(binders))
+    _mw_reads(repo, sf, scope, mv, attrs)
     ok = attrs <= MW_ATTRS
     rep.check('R18.b', fkey(gm, 'attributes read'), ok, 'only %s (and repr(mw)) are read from a middleware' % sorted(attrs) if ok else
               'get_mw_infos reads %s from middlewares' % sorted(attrs - MW_ATTRS), meta, gm.node)
@@ -972,12 +1116,12 @@ def _r18b(rep, repo, meta):
                 if r is None:
                     continue
                 n_repr += 1
-                read = sorted(set(n.attr for n in ast.walk(r.node) if isinstance(n, ast.Attribute) and isinstance(n.value, ast.Name) and n.value.id == 'self'))
+                me = (r.params() or ['self'])[0]
+                read, wide = _self_reads(repo, r, me)
+                read = sorted(read)
                 bad = [a for a in read if 'secret' in a.lower() or a.lower() in ('key', 'secret_key', 'signing_key', 'password') or a.lower().endswith('_key')]
-                wide = any(isinstance(n, ast.Call) and call_name(n) == 'vars' for n in ast.walk(r.node)) or \
-                    any(isinstance(n, ast.Attribute) and n.attr == '__dict__' for n in ast.walk(r.node))
                 rep.check('R18.b', fkey(r), not bad and not wide, '%s.%s shows %s' % (c.name, nm, read) if not bad and not wide else
-                          '%s.%s exposes %s (shown on the meta page for every visitor)' % (c.name, nm, bad or '__dict__'), m, r.node)
+                          '%s.%s exposes %s (shown on the meta page for every visitor)' % (c.name, nm, bad or sorted(set(wide))), m, r.node)
     if n_repr < 3:
         raise AnalysisError('only %d middleware __repr__ methods found (floor 3)' % n_repr)
     rep.floor('R18.b', 4)
@@ -1011,6 +1155,41 @@ def _inject_calls(repo, fi, wanted, chain=(), seen=None):
     return out
 
 
+def _indexes_into(repo, fi, nodes, name, depth=0):
+    """Subscript loads whose base is the object held by local ``name`` or an attribute of it (``e.args[0]``), in the given
+    nodes and in the helpers of the tree the object is handed to."""
+    out = []
+    for n in nodes:
+        if isinstance(n, ast.Subscript) and isinstance(n.ctx, ast.Load):
+            b = n.value
+            while isinstance(b, ast.Attribute):
+                b = b.value
+            if isinstance(b, ast.Name) and b.id == name:
+                out.append(n)
+        elif isinstance(n, ast.Call) and depth < 2:
+            callee, skip = resolve_callee(repo, fi, n)
+            if callee is None:
+                continue
+            for p, x in (bind_args(callee, skip, n) or {}).items():
+                if isinstance(x, ast.Name) and x.id == name:
+                    out.extend(_indexes_into(repo, callee, list(walk_body(callee.node)), p, depth + 1))
+    return out
+
+
+def _substitutes(h, in_helper):
+    """The handler records something in place of the failed result: it binds / updates a local (``x = ..``, ``x[k] = ..``,
+    ``x.update(..)``, ...) or, in a helper, returns the placeholder."""
+    for s in h.body:
+        if isinstance(s, (ast.Assign, ast.AugAssign, ast.AnnAssign)):
+            return True
+        if isinstance(s, ast.Expr) and isinstance(s.value, ast.Call) and isinstance(s.value.func, ast.Attribute) and \
+                s.value.func.attr in ('update', 'setdefault', 'append', 'extend', 'insert', 'add') and (s.value.args or s.value.keywords):
+            return True
+        if in_helper and isinstance(s, ast.Return) and s.value is not None and not (isinstance(s.value, ast.Constant) and s.value.value is None):
+            return True
+    return False
+
+
 def _r18c(rep, repo, meta):
     gmn = meta.func('MetaApplication.get_main')
     rmp = meta.func('MetaApplication.render_main_page_html')
@@ -1028,14 +1207,19 @@ def _r18c(rep, repo, meta):
                     hj, hf = j, links[j][0]
                     break
             in_helper = hf is not anchor
-            ok = h is not None and not any(isinstance(r, ast.Raise) for r in ast.walk(h)) and \
-                (any(isinstance(s, ast.Assign) for s in h.body) or
-                 (in_helper and any(isinstance(s, ast.Return) and s.value is not None for s in h.body)))
+            ok = h is not None and not any(isinstance(r, ast.Raise) for r in ast.walk(h)) and _substitutes(h, in_helper)
             if ok and not in_helper and any(isinstance(s, (ast.Return, ast.Break)) for s in ast.walk(h)):
                 ok = False      # leaving the loop from the handler drops the remaining sections
             rep.check('R18.c', fkey(anchor, c), ok, 'a failing peripheral is replaced by a placeholder (handler: except %s%s)'
                       % (norm(h.type) if h else None, ' in %s' % hf.qualname if h is not None and in_helper else '') if ok else
                       'a failing peripheral call %s fails the whole meta page' % short(c), meta, c)
+            if h is not None and h.name:
+                # the placeholder is built from the repr / type of the exception, never by indexing into it (``e.args``
+                # may be empty): the handler itself must not be able to fail on the exception it reports
+                idx = _indexes_into(repo, hf, [x for s in h.body for x in ast.walk(s)], h.name)
+                rep.check('R18.c', fkey(anchor, c) + '::handler total', not idx, 'the handler does not index into the exception' if not idx else
+                          'the handler indexes into the caught exception (%s): an exception without arguments makes the handler itself '
+                          'fail and the page answers 500' % short(idx[0], 50), meta, idx[0] if idx else h)
             # the protected call runs once per peripheral (one bad section does not hide the others): on the way from the
             # anchor to the handler there is a loop over the peripherals, and the try statement is inside it
             ok = False
